@@ -2787,6 +2787,18 @@ func rewriteIpString(expr *BinaryExpr) error {
 	return nil
 }
 
+func allMeasurementSources(sources Sources) bool {
+	if len(sources) == 0 {
+		return false
+	}
+	for _, src := range sources {
+		if _, ok := src.(*Measurement); !ok {
+			return false
+		}
+	}
+	return true
+}
+
 func RewriteCondVarRef(condition Expr, allVarRef map[string]Expr) error {
 	if condition == nil {
 		return nil
@@ -3293,6 +3305,18 @@ func (s *SelectStatement) RewriteFields(m FieldMapper, batchEn bool, hasJoin boo
 				return nil, rewriteErr
 			}
 		}
+	}
+
+	// Every variable in the condition of a PromQL selector is a label. A label that no series
+	// of the measurement carries is not an unknown field (whose filter the scan drops) but a
+	// tag that is '' everywhere: typed as a tag, the index answers zone='x' with no series and
+	// zone='' / zone!='x' with all of them.
+	if (s.IsPromQuery || s.IsPromRemoteRead) && other.Condition != nil && allMeasurementSources(other.Sources) {
+		WalkFunc(other.Condition, func(n Node) {
+			if ref, ok := n.(*VarRef); ok && ref.Type == Unknown && strings.ToLower(ref.Val) != "time" {
+				ref.Type = Tag
+			}
+		})
 	}
 
 	isEmptyCollByField := func(varRefmap map[string]Expr) bool {
